@@ -17,6 +17,9 @@ type Enc struct {
 	Notes map[string]bool
 	// quiet > 0 while evaluating under a quantifier: no definitions or assumptions may mention bound variables
 	quiet int
+	usesRunEnd bool
+	usesCnt    bool
+	cntSeen    map[string]bool
 }
 
 // Probe is a labelled term whose model value is wanted for replay.
@@ -100,6 +103,12 @@ func (e *Enc) Oblige(fn, kind, what string, goal Term, pos token.Position) *Obli
 func (o *Obligation) Query(prelude string) string {
 	var b strings.Builder
 	b.WriteString(prelude)
+	if o.enc.usesRunEnd {
+		b.WriteString(RunEndAxioms)
+	}
+	if o.enc.usesCnt {
+		b.WriteString(CntAxioms)
+	}
 	for _, l := range o.enc.lines[:o.At] {
 		b.WriteString(l)
 		b.WriteByte('\n')
@@ -143,3 +152,66 @@ const Prelude = `(set-option :produce-models true)
 (define-fun imin ((a Int) (b Int)) Int (ite (<= a b) a b))
 (define-fun imax ((a Int) (b Int)) Int (ite (<= a b) b a))
 `
+
+// RunEndAxioms axiomatise runEnd(cls, m, a, h): the first address in [a,h) whose byte is not in the character
+// class, or h if there is none. Total and consistent for every array (guarded by a <= h).
+const RunEndAxioms = `(define-fun inCls ((k Int) (c Int)) Bool
+  (ite (= k 1) (and (<= 48 c) (<= c 57))
+  (ite (= k 2) (or (and (<= 97 c) (<= c 122)) (and (<= 65 c) (<= c 90)))
+  (ite (= k 3) (or (and (<= 48 c) (<= c 57)) (and (<= 97 c) (<= c 102)) (and (<= 65 c) (<= c 70)))
+  (ite (= k 4) (or (= c 32) (= c 9) (= c 10) (= c 13) (= c 12))
+  false)))))
+(declare-fun runEnd (Int (Array Int Int) Int Int) Int)
+(assert (forall ((c Int) (m (Array Int Int)) (a Int) (h Int)) (! (=> (<= a h) (and (<= a (runEnd c m a h)) (<= (runEnd c m a h) h) (=> (< (runEnd c m a h) h) (not (inCls c (select m (runEnd c m a h))))))) :pattern ((runEnd c m a h)))))
+(assert (forall ((c Int) (m (Array Int Int)) (a Int) (h Int) (k Int)) (! (=> (and (<= a k) (< k (runEnd c m a h))) (inCls c (select m k))) :pattern ((runEnd c m a h) (select m k)))))
+`
+
+// CntAxioms: cntA(m, c, a, h) is the number of addresses k in [a,h) with m[k] == c (defined by recursion on h).
+// The engine asserts the one-step unfolding for every cnt term a contract mentions; the monotonicity lemma
+// below follows by induction on h (its induction step is discharged as a lemma obligation in every check that uses cnt).
+const CntAxioms = `(declare-fun cntA ((Array Int Int) Int Int Int) Int)
+(assert (forall ((m (Array Int Int)) (c Int) (a Int) (k Int) (h Int)) (! (=> (<= k h) (<= (cntA m c a k) (cntA m c a h))) :pattern ((cntA m c a k) (cntA m c a h)))))
+(assert (forall ((m (Array Int Int)) (c Int) (a Int) (h Int)) (! (and (<= 0 (cntA m c a h)) (=> (<= h a) (= (cntA m c a h) 0)) (=> (<= a h) (<= (cntA m c a h) (- h a)))) :pattern ((cntA m c a h)))))
+(assert (forall ((m (Array Int Int)) (c Int) (a Int) (h Int) (k Int)) (! (=> (and (<= a k) (< k h) (= (cntA m c a h) 0)) (not (= (select m k) c))) :pattern ((cntA m c a h) (select m k)))))
+`
+
+// CntLemmaProofs are the induction proofs of the three lemmas in CntAxioms from the recursive definition of cntA
+// (each script must be unsat). They are discharged as obligations of every check that relies on cnt.
+var CntLemmaProofs = map[string]string{
+	"lemma:cnt-monotone/step": `(declare-fun cntA ((Array Int Int) Int Int Int) Int)
+(assert (forall ((m (Array Int Int)) (c Int) (a Int) (h Int)) (! (= (cntA m c a h) (ite (<= h a) 0 (+ (cntA m c a (- h 1)) (ite (= (select m (- h 1)) c) 1 0)))) :pattern ((cntA m c a h)))))
+(declare-const m (Array Int Int)) (declare-const c Int) (declare-const a Int) (declare-const h Int) (declare-const k Int)
+(assert (forall ((j Int)) (=> (<= j h) (<= (cntA m c a j) (cntA m c a h)))))
+(assert (<= k (+ h 1)))
+(assert (not (<= (cntA m c a k) (cntA m c a (+ h 1)))))
+(check-sat)
+`,
+	"lemma:cnt-monotone/base": `(declare-fun cntA ((Array Int Int) Int Int Int) Int)
+(assert (forall ((m (Array Int Int)) (c Int) (a Int) (h Int)) (! (= (cntA m c a h) (ite (<= h a) 0 (+ (cntA m c a (- h 1)) (ite (= (select m (- h 1)) c) 1 0)))) :pattern ((cntA m c a h)))))
+(declare-const m (Array Int Int)) (declare-const c Int) (declare-const a Int) (declare-const h Int) (declare-const k Int)
+(assert (<= h a))
+(assert (<= k h))
+(assert (not (<= (cntA m c a k) (cntA m c a h))))
+(check-sat)
+`,
+	"lemma:cnt-bounds/step": `(declare-fun cntA ((Array Int Int) Int Int Int) Int)
+(assert (forall ((m (Array Int Int)) (c Int) (a Int) (h Int)) (! (= (cntA m c a h) (ite (<= h a) 0 (+ (cntA m c a (- h 1)) (ite (= (select m (- h 1)) c) 1 0)))) :pattern ((cntA m c a h)))))
+(declare-const m (Array Int Int)) (declare-const c Int) (declare-const a Int) (declare-const h Int)
+(assert (<= a h))
+(assert (and (<= 0 (cntA m c a h)) (<= (cntA m c a h) (- h a))))
+(assert (not (and (<= 0 (cntA m c a (+ h 1))) (<= (cntA m c a (+ h 1)) (- (+ h 1) a)))))
+(check-sat)
+`,
+	"lemma:cnt-zero/step": `(declare-fun cntA ((Array Int Int) Int Int Int) Int)
+(assert (forall ((m (Array Int Int)) (c Int) (a Int) (h Int)) (! (= (cntA m c a h) (ite (<= h a) 0 (+ (cntA m c a (- h 1)) (ite (= (select m (- h 1)) c) 1 0)))) :pattern ((cntA m c a h)))))
+(declare-const m (Array Int Int)) (declare-const c Int) (declare-const a Int) (declare-const h Int) (declare-const k Int)
+(assert (<= a h))
+(assert (<= 0 (cntA m c a h)))
+(assert (=> (= (cntA m c a h) 0) (forall ((j Int)) (=> (and (<= a j) (< j h)) (not (= (select m j) c))))))
+(assert (= (cntA m c a (+ h 1)) 0))
+(assert (and (<= a k) (< k (+ h 1))))
+(assert (= (select m k) c))
+(check-sat)
+`,
+}
+
